@@ -9,6 +9,7 @@ import hashlib
 import json
 import os
 import random
+import resource
 import select
 import signal
 import subprocess
@@ -86,6 +87,12 @@ def in_fork(fn, timeout=60.0):
             os.close(r)
             try:
                 faulthandler.dump_traceback_later(timeout + 5, exit=True)
+            except Exception:
+                pass
+            try:
+                # a run-away print must hit MemoryError in the child, not take the machine down
+                lim = int(os.environ.get('VERIF_CHILD_AS_GB', '4')) << 30
+                resource.setrlimit(resource.RLIMIT_AS, (lim, lim))
             except Exception:
                 pass
             try:
